@@ -69,7 +69,11 @@ var zzStepFamily = []map[int]float64{
 	{20: 10, 40: 10},
 	{-20: 0, -10: 20, 0: 60, 10: 255},
 	{-5: 30, 5: 200},
+	{-10: 0, 0: 20, 10: 255},
 }
+
+// quick-tier subset for the two-copy monotonicity queries (a four-step list costs 150 s and more)
+var zzStepQuick = []int{0, 2, 3, 5, 7, 8}
 
 func zzMemberIds(n int) []string {
 	ids := make([]string, n)
